@@ -358,6 +358,7 @@ fn run_row(ctx: &mut Ctx, opts: &[&str], naircraft: usize, depth: usize) {
     explore(ctx, &model, rowmodel::aux_step, |ctx, st| {
         let complaints: Vec<(String, String)> = oracle.judge(ctx, &cfg, st).into_iter().filter(|(s, _)| matches!(s.as_str(), "key-set" | "cross-talk" | "row-address" | "crash" | "rejected-changes-table")).collect();
         rowmodel::report(ctx, "C03", "ROW", &cfg, &actions, st, complaints, json!({"naircraft": naircraft, "depth": depth}));
+        crate::engine::explore::leaf_conformance(ctx, "C03/ROW", "ROW", &cfg, &[], &actions, st, depth, json!({"naircraft": naircraft, "depth": depth}));
     });
     ctx.bound(&format!("ROW [{}]", cfg.label()), format!("{naircraft} aircraft, depth {depth}, {} actions", actions.len()));
 }
@@ -396,6 +397,9 @@ fn replay(ctx: &mut Ctx, case: &Value) {
             let oracle = RowOracle { lookup: Lookup::new(), relaxed: false, probe_idempotence: false, prop: "C03" };
             let model = Model { cfg: &cfg, actions: &actions, depth, init: vec![], aux0: Slots::default() };
             replay_path(ctx, &model, &path, rowmodel::aux_step, |ctx, st| {
+                if crate::engine::explore::replay_leaf_conformance(ctx, case, "C03/ROW", &cfg, &[], &actions, st) {
+                    return;
+                }
                 let complaints: Vec<(String, String)> = oracle.judge(ctx, &cfg, st).into_iter().filter(|(s, _)| matches!(s.as_str(), "key-set" | "cross-talk" | "row-address" | "crash" | "rejected-changes-table")).collect();
                 for (s, m) in &complaints {
                     crate::run::say(&format!("  oracle [{s}]: {m}"));
